@@ -350,6 +350,7 @@ SERVER_CONFIGS = [
     dict(shared=False, single=False, ro=False, ow=True),
     dict(shared=False, single=True, ro=False, ow=False),
     dict(shared=True, single=True, ro=True, ow=False),
+    dict(shared=False, single=False, ro=False, ow=False, rd_only=True),     # -d and -rd only: send dir = -d
 ]
 
 
@@ -369,15 +370,29 @@ def record_requests(vectors, make_requests, tag, configs, only=None, patient=Fal
         if not todo:
             continue
         sb = NET.Sandbox(os.path.join(C.WORK, "sbx", "%s-%d-%d" % (tag, os.getpid(), ci), "base"), cfg["shared"])
-        srv = NET.Server(sb, single=cfg["single"], ro=cfg["ro"], ow=cfg["ow"], clean=cfg.get("clean", True))
+        srv = NET.Server(sb, single=cfg["single"], ro=cfg["ro"], ow=cfg["ow"], clean=cfg.get("clean", True),
+                         rd_only=cfg.get("rd_only", False))
+        reused = None
+        if cfg.get("reuse"):
+            # every request of this configuration comes from ONE endpoint that has already had a
+            # (completed) transfer: refusals and service must not depend on the endpoint's history
+            import socket as _s
+            reused = _s.socket(_s.AF_INET, _s.SOCK_DGRAM)
+            reused.bind((NET.HOST, 0))
+            warm = X.Download(srv, "warm-up", b"a/a", open(os.path.join(sb.send, "a", "a"), "rb").read(), sock=reused)
+            warm.start()
+            while not warm.done:
+                warm.step()
         try:
             events.append(srv.cfg_event())
             for sid_, req in todo:
-                events.append(NET.exchange(srv, req, sid_, patient=patient))
+                events.append(NET.exchange(srv, req, sid_, patient=patient, a_sock=reused))
                 if not srv.alive():
                     events.append({"e": "dead", "sid": sid_, "status": srv.exit_status()})
                     break
         finally:
+            if reused is not None:
+                reused.close()
             srv.stop()
             shutil.rmtree(os.path.dirname(sb.base), ignore_errors=True)
     return events
@@ -426,8 +441,10 @@ def c03(res):
     meta, spath = W.generate(fam, module="MC_Requests")
     res.states += meta["states"]
     res.transitions += meta["transitions"]
-    run_requests(res, spath, name_requests, fam, SERVER_CONFIGS[:2] if q else SERVER_CONFIGS)
+    run_requests(res, spath, name_requests, fam, [SERVER_CONFIGS[0], SERVER_CONFIGS[1]] if q else SERVER_CONFIGS)
     res.extra["exhaustive"] = True
+    # the directories themselves: with only -d and -rd given, reads must come from -d
+    run_requests(res, [{"name": list(n)} for n in (b"b", b"a/a", b"a/b", b"s", b"zz", b"/b", b"a\\a")], name_requests, "dirs-rd-only", [SERVER_CONFIGS[4]])
     # beyond the alphabet: seeded random / mutated names up to the request limit
     rng = random.Random(C.seed())
     parts = [b"a", b"b", b"s", b"..", b".", b"...", b"", b"root", b"rootx", b"send", b"recv", b"sendx", b"outside.txt", b"%2e%2e",
@@ -468,6 +485,9 @@ def c06(res):
                pick(shared=False, single=False, ro=True, ow=True, clean=True),
                pick(shared=True, single=True, ro=False, ow=False, clean=True),
                pick(shared=False, single=True, ro=True, ow=False, clean=False)] if q else ALL_CONFIGS
+    configs = configs + [dict(pick(shared=True, single=True, ro=False, ow=False, clean=True), reuse=True),
+                         dict(pick(shared=True, single=True, ro=True, ow=False, clean=True), reuse=True),
+                         dict(pick(shared=True, single=False, ro=False, ow=False, clean=True), reuse=True)]
     if not q:
         # order effects: every ordered pair of rows for two representative configurations
         pairs = []
@@ -1215,6 +1235,45 @@ def c05(res):
         if name in REPLY_LABELS:
             res.add_violation("FuzzReply:%s" % name, "C05: %d exchange(s) of the fuzz run answered differently from the specification (%s)" % (cnt, label),
                               {"kind": "fuzz", "label": label, "seed": C.seed()})
+    # "from any number of sources": also from ONE source with a history - an endpoint that keeps
+    # sending garbage and, in between, valid requests which must each be served completely
+    import socket as _s
+    ev_t = []
+    for single in (False, True):
+        sb, srv = with_server("fuzz-reuse-%s" % ("s" if single else "m"), shared=True, single=single)
+        try:
+            sock = _s.socket(_s.AF_INET, _s.SOCK_DGRAM)
+            sock.bind((NET.HOST, 0))
+            content = open(os.path.join(sb.send, "b"), "rb").read()
+            for rnd in range(3 if q else 12):
+                for _ in range(25):
+                    sock.sendto(fuzz_datagram(rng)[:500], (NET.HOST, srv.port))
+                NET.recv_reply(sock, 0.05)
+                time.sleep(0.05)
+                sock.setblocking(False)
+                try:
+                    while True:
+                        sock.recvfrom(70000)
+                except OSError:
+                    pass
+                sock.setblocking(True)
+                d = X.Download(srv, "reused-%s-%d" % ("s" if single else "m", rnd), b"b", content, sock=sock,
+                               opts=rng.choice([[], [("blksize", 64)], [("windowsize", 2)]]))
+                d.start()
+                while not d.done:
+                    d.step()
+                X.server_outcomes(srv, [d])
+                ev_t += d.events
+                if not d.started:
+                    ev_t += [{"e": "cfg", "role": "send", "M": 65536, "W": 1, "NB": 1, "R": 1, "T": 5, "chk": False, "clean": True,
+                              "base0": 0, "lastempty": False, "devfull": False, "label": "not-served:" + d.label, "net": True}, {"e": "hang"}]
+                d.wire_from = set()
+            sock.close()
+            if not srv.alive():
+                res.add_violation("dead|fuzz-reuse", "C05: server died", {"kind": "fuzz"})
+        finally:
+            drop_server(sb, srv)
+    file_scenario_deviations(res, ev_t, "fuzz-reused-endpoint", "a valid request from an endpoint with a history (garbage, earlier transfers) is not served correctly")
     res.extra["fuzz_datagrams_per_config"] = n_per
     res.assumptions += ["resource exhaustion by sheer volume (threads, descriptors) is out of scope",
                         "datagrams longer than the 516-byte request buffer are judged on the truncated bytes"]
